@@ -44,6 +44,7 @@ template <class X> struct Runner {
         int rc = 0; bool reached = false;
         ctl.disarm(); ctl.clear_events();
         size_t base_out = ctl.outstanding();
+        LibcWatch& lwAll = libc_watch(); uint64_t lw_allocs0 = lwAll.allocs, lw_frees0 = lwAll.frees, lw_bad0 = lwAll.bad_free;
         auto after = [&](const char* cleanupWhat) {
             reached = ctl.failed() > 0;
             *nreq = ctl.requests();
@@ -56,6 +57,11 @@ template <class X> struct Runner {
         auto verdict = [&]() {
             if (ctl.outstanding() != base_out) { c->violation("C14", fmt("fault/%s/%s/leak-after-cleanup%s", X::tag(), CALLNAME[p.call], k == 0 ? "-fault-free" : ""), what + fmt(" %zu block(s) outstanding", ctl.outstanding() - base_out)); ctl.drop_all(); }
             if (ctl.bad_free()) { c->violation("C14", fmt("fault/%s/%s/bad-release", X::tag(), CALLNAME[p.call]), what + (ctl.L ? " " + ctl.L->bad_free_note : Str(" libc free of unknown pointer"))); ctl.clear_events(); }
+            // C13 on the failure paths too: with a custom manager nothing may go to the C library allocator
+            if (ctl.L && lwAll.available && (lwAll.allocs != lw_allocs0 || lwAll.frees != lw_frees0 || lwAll.bad_free != lw_bad0)) {
+                c->violation("C13", fmt("fault/%s/%s/libc-allocator-used-with-custom-manager", X::tag(), CALLNAME[p.call]), what + fmt(" libc allocs=%llu frees=%llu frees-of-foreign-blocks=%llu", (unsigned long long)(lwAll.allocs - lw_allocs0), (unsigned long long)(lwAll.frees - lw_frees0), (unsigned long long)(lwAll.bad_free - lw_bad0)));
+                lwAll.bad_free = lw_bad0;
+            }
             c->evaluations++;
         };
         switch (p.call) {
